@@ -210,6 +210,11 @@ def run(ctx: Ctx):
         if not all(g.dominated(r, pend) for r in rets):
             ctx.fail(cons + "#always", g.loc(pend[0]), "a request can be routed without being recorded as pending")
 
+    from . import c16
+    ctx.include(c16.run, {"C16-R1", "C16-R2"}, "C10-R3b",
+                "hop-by-hop identifiers handed out by a connection's generator are non-zero and "
+                "unique (generator wrap and critical section)", floor=4)
+
     # ---------------- R4 answer delivery -----------------------------------------------------
     ctx.rule("C10-R4", "an answer is delivered to the application recorded for its ids and to no "
                        "other; receive_answer wakes the waiter of that id or calls the same "
@@ -258,6 +263,24 @@ def run(ctx: Ctx):
             facts = must_facts(ga, ata, deliv[0])
             if (kvar, "in-expr", "self._app_waiting_answer", True) not in facts:
                 ctx.fail(cons + "#unknown", ga.loc(deliv[0]), "an answer with unknown identifiers is delivered")
+    cons = "_app_waiting_answer:released-only-on-delivery"
+    ctx.inst(cons)
+    for f_ in model.all_funcs():
+        if ".node" not in f_.module.name or f_ is fa or f_.name == "__init__":
+            continue
+        for n in A.walk_no_nested(f_.node):
+            hit = False
+            if isinstance(n, ast.Delete):
+                hit = any("_app_waiting_answer" in ast.unparse(t) for t in n.targets)
+            elif isinstance(n, ast.Call) and isinstance(n.func, ast.Attribute) \
+                    and n.func.attr in ("pop", "popitem", "clear") \
+                    and "_app_waiting_answer" in ast.unparse(n.func.value):
+                hit = True
+            if hit:
+                ctx.fail(cons, f_.loc(n), f"{f_.qualname} removes the record that maps an outstanding "
+                         f"request to its application (`{ast.unparse(n)[:60]}`): an answer arriving "
+                         f"after the sender stopped waiting is dropped instead of being passed to the "
+                         f"sending application's handle_answer")
     app_cls = model.cls("node.application", "Application")
     ra = app_cls.methods.get("receive_answer")
     cons = "Application.receive_answer"
